@@ -274,7 +274,7 @@ def main(chk):
         tasks.append((o2_marking, (prog, tl)))
     chk.parallel(_dispatch, tasks)
 
-    hobl.handle_obligations(chk, prog, {'C02'}, ['simple', 'session', 'extended', 'named', 'malformed', 'cuts', 'status', 'plugins', 'copy', 'two-clients', 'timeouts', 'drops'])
+    hobl.handle_obligations(chk, prog, {'C02'}, ['simple', 'session', 'extended', 'named', 'malformed', 'cuts', 'status', 'plugins', 'copy', 'two-clients', 'timeouts', 'drops', 'checkout-failures'])
 
 if __name__ == '__main__':
     run_check('C02', main)
